@@ -499,6 +499,24 @@ class Normaliser:
             for a in n.args:   # f(*(a, b)) is f(a, b)
                 flat.extend(a.value.elts if isinstance(a, ast.Starred) and isinstance(a.value, (ast.Tuple, ast.List)) else [a])
             n = ast.Call(func=n.func, args=flat, keywords=n.keywords)
+        if len(n.args) >= 2 and any(getattr(a, "_unpack_arity", None) for a in n.args):
+            # f(e[0], e[1]) with e[0], e[1] the items of `a, b = e` (all of them, in order) is f(*e): the unpacking already says that e has exactly these items
+            new_args, i_ = [], 0
+            while i_ < len(n.args):
+                a0 = n.args[i_]
+                k_ = getattr(a0, "_unpack_arity", None)
+                if k_ and i_ + k_ <= len(n.args) and isinstance(a0, ast.Subscript):
+                    run = n.args[i_:i_ + k_]
+                    base = ast.dump(a0.value)
+                    if all(isinstance(r_, ast.Subscript) and getattr(r_, "_unpack_arity", None) == k_ and isinstance(r_.slice, ast.Constant) and r_.slice.value == j_
+                           and ast.dump(r_.value) == base for j_, r_ in enumerate(run)) and _ast_pure(a0.value):
+                        new_args.append(ast.Starred(value=a0.value, ctx=ast.Load()))
+                        i_ += k_
+                        continue
+                new_args.append(a0)
+                i_ += 1
+            if len(new_args) != len(n.args):
+                n = ast.Call(func=n.func, args=new_args, keywords=n.keywords)
         if isinstance(f, ast.Name) and f.id == "map" and "map" not in benv:
             g = _map_as_genexp(n, self)
             if g is not n:
@@ -604,6 +622,8 @@ class Normaliser:
                 op, pos = neg[op], False
             if op in ("Gt", "GtE"):
                 op, l, r = {"Gt": "Lt", "GtE": "LtE"}[op], r, l
+            if op == "Lt" and _len_of_set_and_list(l, r):
+                op, pos = "Eq", not pos     # a set of the items is never larger than their list: `len(set) < len(list)` is `len(set) != len(list)`
             if op in ("Eq", "Is") and repr(l) > repr(r):
                 l, r = r, l
             return pos, ("cmp", op, l, r)
@@ -831,6 +851,7 @@ class Normaliser:
                 setattr(new, fld, val)
         if getattr(node, "_unpacked_item", False):
             new._unpacked_item = True
+            new._unpack_arity = getattr(node, "_unpack_arity", None)
         return _fold_literal(new)
 
     def apply_decided(self, e):
@@ -1058,8 +1079,8 @@ class Normaliser:
         ife = self.find_ifexp(exprs)
         if ife is None:
             made = make([self.exo(e, {}) for e in exprs])
-            if made[0] == "bind" and made[1] == made[2]:
-                return []   # `x = x` does nothing
+            if made[0] in ("bind", "store") and made[1] == made[2] and _form_pure(made[1]):
+                return []   # `x = x` / `d[k] = d[k]` does nothing (item and attribute reads are plain field reads)
             return [made]
         key, _ = self.tkey(ife.test)
         _, t = self.test(ife.test, {})
@@ -1194,6 +1215,7 @@ class Normaliser:
                 else:
                     item = ast.Subscript(value=src, slice=ast.Constant(value=i), ctx=ast.Load())   # a, b = e reads e[0], e[1] (stated assumption: e is a sequence of that length)
                 item._unpacked_item = True
+                item._unpack_arity = n_t if lo_hi is None else None
                 self.assign(t, item, env, eff, True)
             return
         if isinstance(target, (ast.Subscript, ast.Attribute)):
@@ -1711,6 +1733,7 @@ class _Prepass(ast.NodeTransformer):
         self.leaking = leaking  # loop variables that are read outside the body of a loop that binds them
         self.read_outside = read_outside or {}   # id(for loop) -> names read somewhere outside that loop
         self.int_names = frozenset()             # names that only ever hold an element of a range(...)
+        self.shadowed = frozenset()              # builtins' names stored somewhere in the function
 
     def _stmts(self, body):
         out = []
@@ -1876,7 +1899,35 @@ class _Prepass(ast.NodeTransformer):
         return node
 
     def visit_ListComp(self, node):
-        self.generic_visit(node)
+        # a comprehension is a scope of its own: its variable over range(...) / its enumerate index is an int inside it whatever the name means elsewhere
+        saved = self.int_names
+        own_int, own_other = set(), set()
+        for g in node.generators:
+            it = g.iter
+            if isinstance(g.target, ast.Name) and isinstance(it, ast.Call) and isinstance(it.func, ast.Name) and it.func.id == "range" and not it.keywords:
+                own_int.add(g.target.id)
+            elif isinstance(g.target, ast.Tuple) and len(g.target.elts) == 2 and isinstance(g.target.elts[0], ast.Name) and isinstance(it, ast.Call) \
+                    and isinstance(it.func, ast.Name) and it.func.id == "enumerate" and len(it.args) == 1 and not it.keywords:
+                own_int.add(g.target.elts[0].id)
+                own_other |= {x.id for x in ast.walk(g.target.elts[1]) if isinstance(x, ast.Name)}
+            else:
+                own_other |= {x.id for x in ast.walk(g.target) if isinstance(x, ast.Name)}
+        rebound_inside = {x.target.id for x in ast.walk(node) if isinstance(x, ast.NamedExpr) and isinstance(x.target, ast.Name)}
+        nested_targets = {y.id for x in ast.walk(node) if isinstance(x, ast.comprehension) and x not in node.generators for y in ast.walk(x.target) if isinstance(y, ast.Name)}
+        saved_nn = self.nonneg
+        own_idx = {g.target.elts[0].id for g in node.generators if isinstance(g.target, ast.Tuple) and len(g.target.elts) == 2 and isinstance(g.target.elts[0], ast.Name)
+                   and isinstance(g.iter, ast.Call) and isinstance(g.iter.func, ast.Name) and g.iter.func.id == "enumerate" and len(g.iter.args) == 1 and not g.iter.keywords}
+        if "range" not in self.shadowed and "enumerate" not in self.shadowed:
+            self.int_names = frozenset((set(saved) - own_other) | (own_int - own_other - rebound_inside - nested_targets))
+            self.nonneg = frozenset((set(saved_nn) - own_other - (own_int - own_idx)) | (own_idx - own_other - rebound_inside - nested_targets))
+        else:
+            self.int_names = frozenset(set(saved) - own_other - own_int)
+            self.nonneg = frozenset(set(saved_nn) - own_other - own_int)
+        try:
+            self.generic_visit(node)
+        finally:
+            self.int_names = saved
+            self.nonneg = saved_nn
         return self._flatten_gens(node)
 
     visit_SetComp = visit_GeneratorExp = visit_DictComp = visit_ListComp
@@ -2557,8 +2608,9 @@ def _int_compare(node, nonneg):
 def _enumerate_indices(fn) -> frozenset:
     """names bound only as the index of `for i, x in enumerate(seq)` loops / comprehension clauses (no start argument) of fn"""
     stores, good = {}, set()
+    in_comp = {id(x) for c in ast.walk(fn) if isinstance(c, ast.comprehension) for x in ast.walk(c.target)}   # comprehension variables are the comprehension's own
     for n in ast.walk(fn):
-        if isinstance(n, ast.Name) and isinstance(n.ctx, (ast.Store, ast.Del)):
+        if isinstance(n, ast.Name) and isinstance(n.ctx, (ast.Store, ast.Del)) and id(n) not in in_comp:
             stores[n.id] = stores.get(n.id, 0) + 1
         elif isinstance(n, ast.arg):
             stores[n.arg] = stores.get(n.arg, 0) + 10
@@ -2566,8 +2618,6 @@ def _enumerate_indices(fn) -> frozenset:
     for n in ast.walk(fn):
         tgt, it = None, None
         if isinstance(n, ast.For):
-            tgt, it = n.target, n.iter
-        elif isinstance(n, ast.comprehension):
             tgt, it = n.target, n.iter
         if tgt is None:
             continue
@@ -2644,12 +2694,13 @@ def _reads_outside_loops(fn) -> dict:
 def _range_vars(fn) -> frozenset:
     """names bound only as the variable of `for i in range(...)` loops / comprehension clauses of fn"""
     stores, cand = {}, {}
+    in_comp = {id(x) for c in ast.walk(fn) if isinstance(c, ast.comprehension) for x in ast.walk(c.target)}   # comprehension variables are the comprehension's own
     for n in ast.walk(fn):
-        if isinstance(n, ast.Name) and isinstance(n.ctx, (ast.Store, ast.Del)):
+        if isinstance(n, ast.Name) and isinstance(n.ctx, (ast.Store, ast.Del)) and id(n) not in in_comp:
             stores[n.id] = stores.get(n.id, 0) + 1
         elif isinstance(n, ast.arg):
             stores[n.arg] = stores.get(n.arg, 0) + 10
-        if isinstance(n, (ast.For, ast.comprehension)) and isinstance(n.target, ast.Name) and isinstance(n.iter, ast.Call) and isinstance(n.iter.func, ast.Name) \
+        if isinstance(n, ast.For) and isinstance(n.target, ast.Name) and isinstance(n.iter, ast.Call) and isinstance(n.iter.func, ast.Name) \
                 and n.iter.func.id == "range" and not n.iter.keywords:
             cand[n.target.id] = cand.get(n.target.id, 0) + 1
     if any(isinstance(n, ast.Name) and n.id == "range" and isinstance(n.ctx, ast.Store) for n in ast.walk(fn)):
@@ -2751,6 +2802,7 @@ def prepass(fn):
     fn2 = copy.deepcopy(fn)
     pp = _Prepass(_enumerate_indices(fn2), _leaking_loop_names(fn2), _reads_outside_loops(fn2))
     pp.int_names = _range_vars(fn2)
+    pp.shadowed = frozenset(x.id for x in ast.walk(fn2) if isinstance(x, ast.Name) and isinstance(x.ctx, (ast.Store, ast.Del))) | frozenset(x.arg for x in ast.walk(fn2) if isinstance(x, ast.arg))
     pp.generic_visit(fn2)
     return fn2
 
@@ -3029,6 +3081,20 @@ def _evaluates(form, e) -> bool:
     if h == "lambda":
         return False
     return any(_evaluates(y, e) for y in form if isinstance(y, tuple))
+
+
+def _len_of_set_and_list(l, r) -> bool:
+    """l = len({e for ...}) / len(set(x)), r = len([e for ...]) / len(x) over the same items"""
+    def is_len(x):
+        return isinstance(x, tuple) and len(x) == 4 and x[0] == "call" and x[1] == ("n", "len") and len(x[2]) == 1 and x[3] == ()
+    if not (is_len(l) and is_len(r)):
+        return False
+    a, b = l[2][0], r[2][0]
+    if isinstance(a, tuple) and isinstance(b, tuple) and len(a) == 4 and len(b) == 4 and a[0] == b[0] == "comp" and a[1] == "set" and b[1] in ("list", "gen") and a[2:] == b[2:]:
+        return True
+    if isinstance(a, tuple) and len(a) == 4 and a[0] == "call" and a[1] == ("n", "set") and a[2] == (b,) and a[3] == ():
+        return True
+    return False
 
 
 def _test_cannot_raise(t) -> bool:
